@@ -29,6 +29,7 @@ type RuleInfo struct {
 }
 
 type Report struct {
+	Sweep    *sweepResult
 	Property string
 	Obls     []Obligation
 	rules    map[string]*RuleInfo
@@ -213,6 +214,12 @@ func (r *Report) finish(w *World, kf *knownFile, tier string, seed int, evidence
 			"the rule definitions in /verif/ordalint (each is a necessary condition, not the property itself)",
 			"the Go toolchain's view of build tags (default tags, GOOS/GOARCH of this machine)"},
 		"exhaustive": true,
+	}
+	if r.Sweep != nil {
+		cov["sensitivity_sweep"] = r.Sweep
+		cov["evaluations"] = len(r.Obls) + len(controls) + r.Sweep.Variants
+		fmt.Printf("sensitivity sweep: %d single-edit variants of %d anchored functions, %d do not type-check, %d flagged, %d unflagged\n",
+			r.Sweep.Variants, r.Sweep.Functions, r.Sweep.NotCompiling, r.Sweep.Flagged, len(r.Sweep.Unflagged))
 	}
 	ev := evidence{PropertyID: r.Property, Tier: tier, Seed: seed, Level: "other", Coverage: cov,
 		Assumptions: assumptions, WallS: time.Since(start).Seconds(), Violations: len(viol)}
